@@ -235,6 +235,72 @@ def agreement(rig: PairRig, dst: t.Dict[str, t.Any]) -> t.List[t.Tuple[str, str,
     return diffs
 
 
+def overaccept(rig: PairRig, src: t.Dict[str, t.Any], rnd: random.Random) -> t.List[t.Tuple[str, str, str]]:
+    """C11 speaks of applications that make the calls *their session accepts*.  Where the real client accepts a request
+    that the model's client refuses in this state (a bind with operations outstanding, anything but a bind while
+    BINDING), the consequences are played out on a copy of the pair with accepted calls only: everything in flight is
+    delivered, the server answers every request in progress with a final success response of the matching kind (skipping
+    any its session refuses), everything is delivered back.  A protocol error on the way or a disagreement at quiescence
+    is then a C11 violation; an over-accepted call without such a consequence is left to C08 / C10."""
+    import sansldap as s
+
+    cabs = src["c"]
+    if cabs["st"] == "CLOSED" or rig.c.state.name == "CLOSED" or rig.s.state.name == "CLOSED":
+        return []
+    diffs: t.List[t.Tuple[str, str, str]] = []
+    for k in ("bindReq", "searchReq", "extReq"):
+        refused = bool(cabs["out"]) if k == "bindReq" else cabs["st"] == "BINDING"
+        if not refused:
+            continue
+        r2 = copy.deepcopy(rig)
+        r2.rnd = rnd
+        obs = sess.invoke(r2.c, "client", {"op": "send", "k": k, "id": 0}, rnd)
+        if obs["res"] != "ok":
+            continue
+        kinds = {m.message_id: proj.kind_of(m) for m, _ in r2.returned if proj.kind_of(m) in ("bindReq", "searchReq", "extReq")}
+        problem = ""
+        try:
+            stage = "server.receive"
+            for m in r2.s.receive(b"".join(r2.c2s) + bytes(r2.c.data_to_send())):
+                kinds[m.message_id] = proj.kind_of(m)
+            stage = "client.receive"
+            r2.c.receive(b"".join(r2.s2c) + bytes(r2.s.data_to_send()))
+            for i in sorted(server_inprogress(r2.s, range(0, 8))):
+                if r2.s.state.name == "CLOSED" or r2.c.state.name == "CLOSED":
+                    break
+                try:
+                    kk = kinds.get(i)
+                    if kk == "bindReq":
+                        r2.s.bind_response(i)
+                    elif kk == "searchReq":
+                        r2.s.search_result_done(i)
+                    elif kk == "extReq":
+                        r2.s.extended_response(i)
+                    else:
+                        continue
+                except s.LDAPError:
+                    continue
+                stage = "client.receive"
+                r2.c.receive(bytes(r2.s.data_to_send()))
+        except s.ProtocolError as ex:
+            problem = f"{stage} raised ProtocolError: {str(ex)[:120]}"
+        except Exception as ex:  # noqa: BLE001
+            problem = f"{stage} raised {type(ex).__name__}: {str(ex)[:120]}"
+        if not problem:
+            opn = lambda st: "OPENED" if st == "BEFORE_OPEN" else st  # noqa: E731
+            if opn(r2.c.state.name) != opn(r2.s.state.name):
+                problem = f"all bytes delivered and every request answered: client is {r2.c.state.name}, server is {r2.s.state.name}"
+            else:
+                cout, _ = client_inprogress(r2.c, range(0, 8))
+                sout = server_inprogress(r2.s, range(0, 8))
+                if cout != sout:
+                    problem = f"all bytes delivered and every request answered: client has {sorted(cout)} in progress, server has {sorted(sout)}"
+        if problem:
+            diffs.append(("C11", f"over-accepted-call/{k}", f"the client (model state {cabs['st']}, in progress {cabs['out']}) accepts a {k} that the documented state machine refuses; "
+                          f"continuing with accepted calls only: {problem}"))
+    return diffs
+
+
 # ------------------------------------------------------------------------------------------------------------------
 _G: t.Dict[str, t.Any] = {}
 
@@ -252,6 +318,10 @@ def _work(args: t.Tuple[int, int, int]) -> t.List[t.Any]:
         if j % nw != wid or k not in _G["real"]:
             continue
         base = _G["real"][k]
+        if edges:
+            d0 = overaccept(base, edges[0]["src"], rnd)
+            if d0:
+                out.append(({"op": "overaccept", "src": edges[0]["src"]}, d0))
         for e in edges:
             rig = copy.deepcopy(base)
             rig.rnd = rnd
